@@ -1568,6 +1568,7 @@ func (enc *VP8Encoder) recordAllTokens(stats *ProbaStats) {
 
 		if info.Skip {
 			enc.numSkip++
+			enc.tokens.MarkMBStart(it.MBIdx) // empty token range (see encodeFrame)
 			enc.topNz[it.X] = 0
 			enc.leftNz = 0
 			if info.MBType == 0 {
